@@ -326,7 +326,9 @@ fn markers_of(text: &str) -> Result<Vec<(u32, u32)>, String> {
     let l = lex(text, Mode::Luau).map_err(|e| format!("{} (line {})", e.msg, e.line))?;
     let mut out = vec![];
     for t in &l.tokens {
-        if t.kind == TokKind::Str && t.text.starts_with("\"@L") && t.text.ends_with('"') {
+        // a rule may write the literal again from its value, with the other quote
+        let quoted = |q: char| t.text.starts_with(q) && t.text[1..].starts_with("@L") && t.text.ends_with(q) && t.text.len() > 4;
+        if t.kind == TokKind::Str && (quoted('"') || quoted('\'')) {
             if let Ok(n) = t.text[3..t.text.len() - 1].parse::<u32>() {
                 out.push((n, t.line));
             }
@@ -631,7 +633,8 @@ fn tagged_markers_of(text: &str) -> Result<Vec<(usize, u32, u32)>, String> {
     let l = lex(text, Mode::Luau).map_err(|e| format!("{} (line {})", e.msg, e.line))?;
     let mut out = vec![];
     for t in &l.tokens {
-        if t.kind == TokKind::Str && t.text.starts_with("\"@") && t.text.ends_with('"') {
+        let quoted = |q: char| t.text.starts_with(q) && t.text[1..].starts_with('@') && t.text.ends_with(q) && t.text.len() > 3;
+        if t.kind == TokKind::Str && (quoted('"') || quoted('\'')) {
             let body = &t.text[2..t.text.len() - 1];
             if let Some((i, n)) = body.split_once('L') {
                 if let (Ok(i), Ok(n)) = (i.parse::<usize>(), n.parse::<u32>()) {
